@@ -19,9 +19,16 @@ def describe(rng, kind=None, allow_convexity=True, nf=None):
     t = str(rng.choice(FEATURE_TYPES, p=[.3, .2, .15, .25, .1]))
     f = {"name": "f%d" % i, "type": t, "lattice_size": ls if same_ls else int(rng.choice([2, 3])), "default_value": None}
     if t in ("cat", "catnone"):
-      f["num_buckets"] = int(rng.choice([3, 4]))
+      f["num_buckets"] = int(rng.choice([3, 4, 5]))
       if t == "cat":
-        f["pairs"] = [[0, 1], [0, 2]] if rng.rand() < .6 else [[0, 1], [1, 2]]
+        if rng.rand() < .5:
+          f["pairs"] = [[0, 1], [0, 2]] if rng.rand() < .6 else [[0, 1], [1, 2]]
+        else:
+          # any acyclic set of pairs, listed in any order (joins, forks, diamonds: the projection visits them topologically)
+          from tflv.gen import graphs
+          f["num_buckets"] = int(rng.choice([4, 5]))
+          pr, _ = graphs.dag_pairs(rng, list(range(f["num_buckets"])), kind=str(rng.choice(["diamond", "random", "random", "fan_in", "forest"])))
+          f["pairs"] = [[int(a), int(b)] for a, b in pr]
       if rng.rand() < .25:
         f["default_value"] = -1
     else:
